@@ -156,6 +156,21 @@ def run_driver(lines: list[str], prop: str, timeout=3600) -> dict[str, str]:
     """Pipe request lines to the Lean driver of `prop`, return case-id -> observation."""
     if not lines:
         return {}
+    jobs = int(os.environ.get("VERIF_JOBS", os.cpu_count() or 1))
+    if len(lines) >= 400 and jobs > 1:
+        import concurrent.futures as cf
+
+        k = min(jobs, max(1, len(lines) // 100))
+        parts = [lines[i::k] for i in range(k)]
+        out: dict[str, str] = {}
+        with cf.ThreadPoolExecutor(k) as ex:
+            for r in ex.map(lambda part: _run_driver_one(part, prop, timeout), parts):
+                out.update(r)
+        return out
+    return _run_driver_one(lines, prop, timeout)
+
+
+def _run_driver_one(lines: list[str], prop: str, timeout=3600) -> dict[str, str]:
     inp = "\n".join(lines) + "\n"
     try:
         p = subprocess.run(
@@ -245,6 +260,32 @@ def evaluate_case(mod, spec):
     return obs, fails
 
 
+_WORKER_MOD = None
+
+
+def _worker(args):
+    prop, chunk = args
+    global _WORKER_MOD
+    if _WORKER_MOD is None or _WORKER_MOD.PROP != prop:
+        _WORKER_MOD = importlib.import_module(f"props.{prop}")
+    return [evaluate_case(_WORKER_MOD, spec) for spec in chunk]
+
+
+def parallel_eval(prop, specs, jobs=None):
+    """Evaluate all specs (implementation observation + oracle), in worker processes when it pays."""
+    jobs = jobs or int(os.environ.get("VERIF_JOBS", os.cpu_count() or 1))
+    mod = importlib.import_module(f"props.{prop}")
+    if jobs <= 1 or len(specs) < 64 or getattr(mod, "SERIAL", False):
+        return [evaluate_case(mod, s) for s in specs]
+    import multiprocessing as mp
+
+    n = max(1, min(len(specs) // 16, 200))
+    chunks = [(prop, specs[i : i + n]) for i in range(0, len(specs), n)]
+    with mp.get_context("fork").Pool(jobs) as pool:
+        out = pool.map(_worker, chunks)
+    return [r for ch in out for r in ch]
+
+
 def run_check(prop: str, tier: str, seed: int, replay: str | None) -> int:
     t0 = time.time()
     mod = importlib.import_module(f"props.{prop}")
@@ -316,8 +357,9 @@ def run_check(prop: str, tier: str, seed: int, replay: str | None) -> int:
     oracle_fail: list[tuple[int, list[Failure]]] = []
     seen = set()
     distinct_nontrivial = 0
+    results = parallel_eval(prop, specs)
     for i, spec in enumerate(specs):
-        obs, fails = evaluate_case(mod, spec)
+        obs, fails = results[i]
         cid = str(i)
         impl_obs[cid] = obs
         pl = mod.payload(spec)
